@@ -123,7 +123,7 @@ def observe(buf, built, expect_values=None):
             out += MBXML.as_bytes(d)
         r["reser"] = list(out)
         if expect_values is not None:
-            got = [[struct([p.token_id, p.value, [(a.name, a.value) if hasattr(a, "token_id") else a for a in p.attributes]])
+            got = [[struct([p.token_id, p.value, [(a.token_id, a.name, a.value) if hasattr(a, "token_id") else a for a in p.attributes]])
                     for p in d.parts] for d in docs]
             r["values_equal"] = got == expect_values
     except Exception as ex:  # noqa
@@ -170,7 +170,7 @@ def run(ctx):
             if t is None:
                 continue
             doc.parts.append(t)
-            exp.append(struct([t.token_id, t.value, [(a.name, a.value) if hasattr(a, "token_id") else a for a in t.attributes]]))
+            exp.append(struct([t.token_id, t.value, [(a.token_id, a.name, a.value) if hasattr(a, "token_id") else a for a in t.attributes]]))
         if not d.value[1]:
             doc.constants_table = MBXML.build_constants_table(d) if mode == "inline" else b""
             doc.is_constant_table_default = False
@@ -254,7 +254,7 @@ def run(ctx):
             if not is_req and rng.random() < 0.5:
                 doc.parts.append(LRRP.get_token("speed-hor", rng.randrange(300) + rng.randrange(128) / 128, {}, is_request=False))
             for t in doc.parts:
-                exp.append(struct([t.token_id, t.value, [(a.name, a.value) if hasattr(a, "token_id") else a for a in t.attributes]]))
+                exp.append(struct([t.token_id, t.value, [(a.token_id, a.name, a.value) if hasattr(a, "token_id") else a for a in t.attributes]]))
             samples.append(observe(MBXML.as_bytes(doc), True, [exp]))
         except Exception as ex:  # noqa
             samples.append({"buf": [], "built": True, "err": "api:" + type(ex).__name__, "ndocs": 0, "ids": [], "tokens": [], "reser": [], "values_equal": False})
